@@ -279,6 +279,11 @@ impl WyRand {
 #[cfg(any(test, feature = "std"))]
 pub fn aligned_buf(size: usize) -> &'static mut [u8] {
     use std::alloc::{Layout, alloc_zeroed};
+    if size == 0 {
+        // Zero-sized allocations are not allowed: return an empty, well-aligned slice instead
+        let ptr = core::ptr::without_provenance_mut::<u8>(align_of::<Align>());
+        return unsafe { std::slice::from_raw_parts_mut(ptr, 0) };
+    }
     let ptr = unsafe { alloc_zeroed(Layout::from_size_align(size, align_of::<Align>()).unwrap()) };
     unsafe { std::slice::from_raw_parts_mut(ptr, size) }
 }
